@@ -81,3 +81,31 @@ impl Args {
         self.get(k).unwrap_or(d).to_string()
     }
 }
+
+/// `--parity even|odd|mixed|packed`: placement of byte buffers. With the ledger all four modes exist (default
+/// `mixed`); without it (ASan / TSan / valgrind builds) the stateless shifting allocator offers even (default),
+/// odd and mixed; under Miri placement is Miri's own.
+pub fn apply_parity(a: &Args) {
+    #[cfg(feature = "ledger")]
+    {
+        use crate::ledger::{set_parity, Parity};
+        match a.str("parity", "mixed").as_str() {
+            "even" => set_parity(Parity::Even),
+            "odd" => set_parity(Parity::Odd),
+            "packed" => set_parity(Parity::Packed),
+            _ => set_parity(Parity::Mixed),
+        }
+    }
+    #[cfg(all(not(feature = "ledger"), not(miri)))]
+    {
+        crate::oddalloc::set_mode(match a.str("parity", "even").as_str() {
+            "odd" => 1,
+            "mixed" => 2,
+            _ => 0,
+        });
+    }
+    #[cfg(all(not(feature = "ledger"), miri))]
+    {
+        let _ = a;
+    }
+}
